@@ -497,11 +497,17 @@ def r02q(ck, fb, R='R02q'):
                'f32 / f64 field rejects null - so every float field of a type reachable from ClientRequest needs a decoder of its own '
                '(deserialize_with), otherwise an acknowledged entry (a persistent instance registered with weight=NaN) is never returned again: '
                'not to followers, not to the replay')
-    CR = 'rnacos::raft::store::ClientRequest'
-    if not ck.require(CR in fb.adts, R, 'anchor:ClientRequest', '-', 'ClientRequest not found'):
-        return
+    float_fields_decode_null(ck, fb, R, ['rnacos::raft::store::ClientRequest'], 'log payload types', 20,
+                             'POST /nacos/v1/ns/instance with ephemeral=false&weight=NaN is acknowledged and appended; get_log_entries(1,4) returns indexes [1, 3]')
+
+
+def float_fields_decode_null(ck, fb, R, roots, what, floor, example):
+    """every bare f32 / f64 field of a type reachable from `roots` is decoded by a decoder of its own (not by the derived float decoder)"""
+    for r0 in roots:
+        if not ck.require(r0 in fb.adts, R, 'anchor:%s' % r0.split('::')[-1], '-', '%s not found' % r0):
+            return
     seen = set()
-    stack = [CR]
+    stack = list(roots)
     while stack:
         a = stack.pop()
         if a in seen or a not in fb.adts:
@@ -512,9 +518,9 @@ def r02q(ck, fb, R='R02q'):
                 for m in re.findall(r'rnacos::[A-Za-z0-9_:]+', f[1]):
                     if m in fb.adts and m not in seen:
                         stack.append(m)
-    ck.floor(R, 'types reachable from ClientRequest', len(seen), 20)
+    ck.floor(R, 'types reachable from %s' % ', '.join(x.split('::')[-1] for x in roots), len(seen), floor)
     floats = [(a, f[0], f[1]) for a in sorted(seen) for v in fb.adts[a]['variants'] for f in v['fields'] if re.fullmatch(r'f(32|64)', f[1])]
-    ck.info(R, 'bare float fields in log payload types: %s' % [(a.split('::')[-1], f) for (a, f, _) in floats])
+    ck.info(R, 'bare float fields in %s: %s' % (what, [(a.split('::')[-1], f) for (a, f, _) in floats]))
     for (a, f, ty) in floats:
         plain = []
         for b in fb.bodies.values():
@@ -524,8 +530,7 @@ def r02q(ck, fb, R='R02q'):
                 if re.search(r'(next_value|next_element)$', s0.callee or '') and ty in (s0.gargs or []):
                     plain.append(s0)
         ck.require(not plain, R, 'float-field-decodes-null:%s.%s' % (a.split('::')[-1], f), plain[0].where() if plain else '-',
-                   '%s.%s is decoded by the derived %s decoder, which rejects the null that serde_json writes for NaN / infinity: POST /nacos/v1/ns/instance '
-                   'with ephemeral=false&weight=NaN is acknowledged and appended; get_log_entries(1,4) returns indexes [1, 3]' % (a.split('::')[-1], f, ty),
+                   '%s.%s is decoded by the derived %s decoder, which rejects the null that serde_json writes for NaN / infinity: %s' % (a.split('::')[-1], f, ty, example),
                    'decoded by a field decoder of its own')
 
 
